@@ -77,8 +77,10 @@ Definition set_feeds (s : shared) (n : nat) := {| wbio := wbio s; deque := deque
      f_recheck  : with meta/fixes/C08_lost_wakeup.diff the WANT_READ branch, once it holds the recv lock, re-checks whether
                   another task fed the SSL object in the meantime;
      f_skiplock : with meta/fixes/C08_send_lock_only_if_pending.diff the send lock is taken only when the outgoing BIO
-                  is not empty. *)
-Record flags := { f_recheck : bool; f_skiplock : bool }.
+                  is not empty;
+     f_close_flush : with meta/fixes/C09_close_notify_after_failed_unwrap.diff aclose() still sends what unwrap() left in
+                  the outgoing BIO when unwrap() failed with an SSLError (used by Conc/TlsEof.v only). *)
+Record flags := { f_recheck : bool; f_skiplock : bool; f_close_flush : bool }.
 
 Section Flags.
 Variable fl : flags.
